@@ -1,11 +1,14 @@
 import Pk.Tsvd
 import PkLA.Truncation
+import PkLA.EckartYoung
+import PkLA.SvdExists
 import Mathlib.Algebra.Order.Field.Rat
 /-! # C14 — the retained rank obeys the truncation rule
 
 Theorems about `fitRank` / `cutoffRank` (`Pk/Tsvd.lean`) for every list of singular values.
-That the factors returned by LAPACK are a valid SVD, and Eckart–Young optimality of the leading
-triplets, are NOT proved (validated numerically by the check).  Property theorems only. -/
+Eckart–Young optimality of the leading triplets IS proved (spectral and Frobenius form, `C14_best_spectral`,
+`C14_best_frobenius`) for any factorisation with orthonormal columns; that the factors LAPACK returns are such a
+factorisation is validated numerically by the check, not proved.  Property theorems only. -/
 namespace Pk.C14
 open Pk.Tsvd
 
@@ -157,14 +160,49 @@ theorem C14_kept_orthonormal (Q : Matrix m (a ⊕ b) ℝ) (Z : Matrix n (a ⊕ b
   ⟨orth_keep Q hQ, orth_keep Z hZ⟩
 
 /-- … whose product differs from `X` by exactly the discarded triplets, with squared Frobenius error `Σ_discarded σ²`
-(so keeping the largest `σ` minimises the error AMONG index cuts; optimality among all rank-r matrices, Eckart–Young,
-is not proved) -/
+(optimality among ALL matrices of that rank: `C14_best_frobenius`, `C14_best_spectral` below) -/
 theorem C14_residual (Q : Matrix m (a ⊕ b) ℝ) (Z : Matrix n (a ⊕ b) ℝ) (s : a ⊕ b → ℝ)
     (hQ : Qᵀ * Q = 1) (hZ : Zᵀ * Z = 1) :
     Q * diagonal s * Zᵀ - keepL Q * diagonal (s ∘ Sum.inl) * (keepL Z)ᵀ
         = dropL Q * diagonal (s ∘ Sum.inr) * (dropL Z)ᵀ
     ∧ fro2 (Q * diagonal s * Zᵀ - keepL Q * diagonal (s ∘ Sum.inl) * (keepL Z)ᵀ) = ∑ k : b, s (Sum.inr k) ^ 2 :=
   truncation_residual Q Z s hQ hZ
+
+/-- **Eckart–Young–Mirsky, Frobenius norm**: if the kept singular values are the leading ones
+(`σ_discarded ≤ σ_kept`, all `σ ≥ 0`), NO matrix `B` of rank at most the number of kept triplets is closer to
+`X = Q diag(σ) Zᵀ` than the truncation `Q_a diag(σ_a) Z_aᵀ` that `Tsvd` returns -/
+theorem C14_best_frobenius (Q : Matrix m (a ⊕ b) ℝ) (Z : Matrix n (a ⊕ b) ℝ) (s : a ⊕ b → ℝ)
+    (hQ : Qᵀ * Q = 1) (hZ : Zᵀ * Z = 1) (hs0 : ∀ j, 0 ≤ s j)
+    (hsort : ∀ (i : a) (k : b), s (Sum.inr k) ≤ s (Sum.inl i))
+    (B : Matrix m n ℝ) (hB : B.rank ≤ Fintype.card a) :
+    fro2 (Q * diagonal s * Zᵀ - keepL Q * diagonal (s ∘ Sum.inl) * (keepL Z)ᵀ)
+      ≤ fro2 (Q * diagonal s * Zᵀ - B) :=
+  eckart_young_frobenius_optimal Q Z s hQ hZ hs0 hsort B hB
+
+/-- **Eckart–Young, spectral norm**: the truncation has rank at most `|a|`, its error operator is bounded by the
+largest discarded singular value `σ_{k0}`, and every competitor of rank at most `|a|` errs by at least that much
+on some vector -/
+theorem C14_best_spectral (Q : Matrix m (a ⊕ b) ℝ) (Z : Matrix n (a ⊕ b) ℝ) (s : a ⊕ b → ℝ)
+    (hQ : Qᵀ * Q = 1) (hZ : Zᵀ * Z = 1) (k0 : b)
+    (hkeep : ∀ i : a, s (Sum.inr k0) ≤ s (Sum.inl i))
+    (hdrop : ∀ k : b, |s (Sum.inr k)| ≤ s (Sum.inr k0)) :
+    (keepL Q * diagonal (s ∘ Sum.inl) * (keepL Z)ᵀ).rank ≤ Fintype.card a
+    ∧ (∀ x : n → ℝ,
+        ((Q * diagonal s * Zᵀ - keepL Q * diagonal (s ∘ Sum.inl) * (keepL Z)ᵀ) *ᵥ x)
+          ⬝ᵥ ((Q * diagonal s * Zᵀ - keepL Q * diagonal (s ∘ Sum.inl) * (keepL Z)ᵀ) *ᵥ x)
+        ≤ s (Sum.inr k0) ^ 2 * (x ⬝ᵥ x))
+    ∧ (∀ B : Matrix m n ℝ, B.rank ≤ Fintype.card a → ∃ x : n → ℝ, x ≠ 0 ∧
+        s (Sum.inr k0) ^ 2 * (x ⬝ᵥ x)
+          ≤ ((Q * diagonal s * Zᵀ - B) *ᵥ x) ⬝ᵥ ((Q * diagonal s * Zᵀ - B) *ᵥ x)) :=
+  eckart_young_spectral_optimal Q Z s hQ hZ k0 hkeep hdrop
+
+/-- every real matrix has a (compact) singular value decomposition with orthonormal factors and positive singular
+values, as many as its rank - so the hypotheses of the theorems above are satisfiable for every input of `Tsvd.fit`
+(that LAPACK returns one is validated numerically, not proved) -/
+theorem C14_svd_exists {m n : Type} [Fintype m] [Fintype n] [DecidableEq m] [DecidableEq n] (X : Matrix m n ℝ) :
+    ∃ (r : Type) (_ : Fintype r) (_ : DecidableEq r) (Q : Matrix m r ℝ) (Z : Matrix n r ℝ) (s : r → ℝ),
+      Qᵀ * Q = 1 ∧ Zᵀ * Z = 1 ∧ (∀ i, 0 < s i) ∧ X = Q * diagonal s * Zᵀ ∧ Fintype.card r = X.rank :=
+  exists_svd_rank X
 
 end factors
 
